@@ -204,6 +204,9 @@ func (prop) Run(t *testing.T, s *sim.Sim, res *runner.Result) {
 	// certificate bytes are random (crypto/rand): object digests must not enter the trace
 	w.st.StepFn = func() int { return s.Step }
 	w.st.OnLog = append(w.st.OnLog, func(e *simapi.LogEntry) {
+		if e.Read {
+			return
+		}
 		st := "ok"
 		if e.Injected != "" {
 			st = "injected:" + e.Injected
